@@ -208,7 +208,22 @@ def friendly_scalar(r):
     return r.pick(SCALARS)(r)
 
 
+class SlowToPrint:
+    """Takes 150 ms to render (on the checks' switchable clock, so the run itself stays fast and deterministic)."""
+
+    def __init__(self):
+        self.inner = 'payload'
+
+    def __str__(self):
+        from vf import clock
+        clock.bump(150_000_000)
+        return 'slow-to-print'
+
+    __repr__ = __str__
+
+
 HOSTILE = [
+    ('slow_to_print', lambda r: SlowToPrint()),
     ('bytes', lambda r: r.pick([b'', b'abc', b'\xff\xfe\x00', bytes(range(256))])),
     ('bytearray', lambda r: bytearray(b'ba\x00\xff')),
     ('datetime', lambda r: r.pick([datetime.datetime(2024, 1, 2, 3, 4, 5), datetime.date(2020, 2, 29),
